@@ -165,11 +165,18 @@ func (m *Machine) inBounds(idx *smt.Term, t types.Type, n int) *smt.Term {
 	if m.IntMode() {
 		return smt.And(smt.ILe(smt.IntConstI(0), idx), smt.ILt(idx, smt.IntConstI(int64(n))))
 	}
-	nc := smt.BVConst(nt.w, uint64(n))
+	// n may not be representable in the index type (a uint8 index into a 256-entry table)
 	if nt.signed {
-		return smt.And(smt.BvSle(smt.BVConst(nt.w, 0), idx), smt.BvSlt(idx, nc))
+		lower := smt.BvSle(smt.BVConst(nt.w, 0), idx)
+		if nt.w < 64 && int64(n) > (int64(1)<<uint(nt.w-1))-1 {
+			return lower
+		}
+		return smt.And(lower, smt.BvSlt(idx, smt.BVConst(nt.w, uint64(n))))
 	}
-	return smt.BvUlt(idx, nc)
+	if nt.w < 64 && uint64(n) > (uint64(1)<<uint(nt.w))-1 {
+		return smt.True
+	}
+	return smt.BvUlt(idx, smt.BVConst(nt.w, uint64(n)))
 }
 
 func (m *Machine) indexAddr(base Value, idxv Value, it types.Type) Value {
@@ -365,6 +372,19 @@ func (m *Machine) strConcat(a, b StrVal) StrVal {
 }
 
 func (m *Machine) strEq(a, b StrVal) *smt.Term {
+	if a.Abs != nil || b.Abs != nil {
+		if a.Abs == nil || b.Abs == nil {
+			m.unsupported("comparison of an abstract encoded string with a plain string")
+		}
+		if a.Abs.Ctor != b.Abs.Ctor || len(a.Abs.Args) != len(b.Abs.Args) {
+			return smt.False // encoders are injective and length-preserving in their input
+		}
+		cs := make([]*smt.Term, len(a.Abs.Args))
+		for i := range cs {
+			cs[i] = smt.Eq(a.Abs.Args[i], b.Abs.Args[i])
+		}
+		return smt.And(cs...)
+	}
 	if a.Len() != b.Len() {
 		return smt.False
 	}
